@@ -13,7 +13,7 @@ import (
 	"pgregory.net/rapid"
 )
 
-var profile = histeng.Profile{MaxTargets: 6, Edits: histeng.AllEdits, Taint: true, DirOutputs: true, BinOutputs: true, BinWeight: 2, MinSteps: 4, MaxSteps: 10, SubsetBuilds: true,
+var profile = histeng.Profile{MaxTargets: 6, Edits: histeng.AllEdits, Taint: true, DirOutputs: true, BinOutputs: true, BinWeight: 2, Groups: true, MinSteps: 4, MaxSteps: 10, SubsetBuilds: true,
 	NoCacheTags: true, NoCacheBuild: true, Faults: true, Perturbs: []string{"perturb-delete", "perturb-delete", "perturb-delete-parent", "perturb-overwrite", "perturb-clean", "perturb-clean"}}
 
 func run(h histeng.History) (pbt.Result, error) {
